@@ -1,7 +1,7 @@
 (** C08: case type and checker (verdict equality across cache configurations, frame). *)
 From GV Require Export World WorldCheck Verdict.
 
-Inductive c08case := C08 (baseline : list vout) (configs : list (nat * list vout)) (frame_ok : bool).
+Inductive c08case := C08 (baseline : list vout) (configs : list (nat * list vout)) (frame_ok : bool) (from_tip_ok : bool).
 
 Definition vlist_eqb (a b : list vout) : bool :=
   Nat.eqb (List.length a) (List.length b) && forallb (fun p => vout_eqb (fst p) (snd p)) (combine a b).
@@ -21,12 +21,25 @@ Definition k8_only (base cfg : list vout) : bool :=
   | _, _ => false
   end.
 
+(** K13 pattern: full verification accepts although verification that starts at the reference's
+    latest entry does not (an unverified "fix" entry, K5); once the checkpoint sits on that entry a
+    repeated full verification starts there and rejects.  Only the full verdict differs. *)
+Definition k13_only (base cfg : list vout) (from_tip_ok : bool) : bool :=
+  match base, cfg with
+  | [b_full; b_latest; b_other], [c_full; c_latest; c_other] =>
+      negb from_tip_ok && vout_eqb b_latest c_latest && vout_eqb b_other c_other
+      && (vout_eqb b_full c_full || (vout_ok b_full && negb (vout_ok c_full)))
+  | _, _ => false
+  end.
+
 Definition c08_check (c : c08case) : verdict :=
   match c with
-  | C08 base cfgs frame =>
+  | C08 base cfgs frame from_tip_ok =>
       if negb frame then VSpec 2
       else if existsb (fun cf => Nat.eqb (fst cf) 0 && negb (vlist_eqb (snd cf) base)) cfgs then VSpec 1
-      else if existsb (fun cf => Nat.eqb (fst cf) 1 && negb (vlist_eqb (snd cf) base) && negb (k8_only base (snd cf))) cfgs then VSpec 3
+      else if existsb (fun cf => Nat.eqb (fst cf) 1 && negb (vlist_eqb (snd cf) base) && negb (k8_only base (snd cf))
+                                 && negb (k13_only base (snd cf) from_tip_ok)) cfgs then VSpec 3
+      else if existsb (fun cf => Nat.eqb (fst cf) 1 && negb (vlist_eqb (snd cf) base) && negb (k8_only base (snd cf))) cfgs then VFinding 13
       else if existsb (fun cf => Nat.eqb (fst cf) 2 && negb (vlist_eqb (snd cf) base)) cfgs then VFinding 2
       else if existsb (fun cf => Nat.eqb (fst cf) 1 && negb (vlist_eqb (snd cf) base)) cfgs then VFinding 8
       else VOk
